@@ -354,7 +354,8 @@ class Arch:
         # copy / equality
         if op == 'copy':
             try:
-                c = a.copy('cpy')
+                self.ncopy = getattr(self, 'ncopy', 0) + 1
+                c = a.copy('cpy%d' % self.ncopy)       # a fresh name each time: copying onto an existing archive is not the subject
             except (PathPruned, Inconclusive):
                 raise
             except Exception as e:
